@@ -327,6 +327,22 @@ pub fn check_read(fmt: Fmt, bytes: &[u8]) -> Result<ReadOutcome, Violation> {
         Parsed::One(v) => vec![(String::new(), dense_of_value(v))],
         Parsed::Many(m) => sorted_dense(m),
     };
+    // an accepted tensor holds exactly prod(shape) elements (exact arithmetic)
+    for (name, d) in &values {
+        let exact = d.shape.iter().fold(1u128, |a, x| a.saturating_mul(*x as u128));
+        if exact != d.bits.len() as u128 {
+            return Err(viol(
+                format!("accepted-inconsistent:{}", fmt.name()),
+                format!(
+                    "{}::read returned entry {name:?} with shape {:?} (= {exact} elements) but {} elements (input: {})",
+                    fmt.name(),
+                    d.shape,
+                    d.bits.len(),
+                    hex_prefix(bytes)
+                ),
+            ));
+        }
+    }
     // single-array accessors agree with the map reader
     if let Parsed::Many(m) = &parsed {
         for (name, expect) in values.iter().take(6) {
